@@ -87,10 +87,17 @@ pub unsafe extern "C" fn __clear_cache(start: *mut u8, end: *mut u8) {
     }
 }
 
+/// is [a] the address of a mapping obtained through a recorded mmap and NOT yet unmapped?  (The address of a trampoline that was
+/// already released can be reused by the C runtime for a thread stack or an arena; its munmap is not the library's doing.)
 fn ours(a: u64) -> bool {
     let n = len();
-    for i in 0..n { let e = get(i); if e.kind == b'M' && e.ret >= 0 && e.ret as u64 == a { return true; } }
-    false
+    let mut live = false;
+    for i in 0..n {
+        let e = get(i);
+        if e.kind == b'M' && e.ret >= 0 && e.ret as u64 == a { live = true; }
+        else if e.kind == b'U' && e.a == a { live = false; }
+    }
+    live
 }
 pub fn hex(b: &[u8]) -> String { b.iter().map(|x| format!("{x:02x}")).collect() }
 /// events [from, to) in the wire format of the model driver
